@@ -2,6 +2,7 @@ package ksim
 
 import (
 	"context"
+	"strings"
 	"encoding/json"
 	"fmt"
 	"net/http"
@@ -259,6 +260,7 @@ type Process struct {
 	whRollout  *validating.RolloutCreateUpdateHandler
 
 	Starts int
+	panics int
 }
 
 func NewProcess(s *Sim) *Process {
@@ -605,9 +607,29 @@ type RecInfo struct {
 // onPanic: production runs without RecoverPanic, so a panic in a reconcile kills the process.
 func (s *Sim) onPanic(info *RecInfo, t *Task) {
 	s.stat("panic")
-	s.Violate("C09", "P1-panic", "panic/"+info.Ctrl+"/"+firstLine(info.Panic), s.Store.seq,
+	s.Violate("C09", "P1-panic", "panic/"+info.Ctrl+"/"+panicSite(t.panicStk), s.Store.seq,
 		"panic in %s reconcile of %s: %s\n%s", info.Ctrl, info.Req, info.Panic, trimStack(t.panicStk))
 	s.crash(s.Proc, "panic")
+}
+
+// panicSite: the innermost function of the repository on the panicking stack (stable signature).
+func panicSite(stack string) string {
+	lines := strings.Split(stack, "\n")
+	seenPanic := false
+	for _, l := range lines {
+		if strings.HasPrefix(l, "panic(") {
+			seenPanic = true
+			continue
+		}
+		if seenPanic && strings.HasPrefix(l, "github.com/openkruise/rollouts/") {
+			l = strings.TrimPrefix(l, "github.com/openkruise/rollouts/")
+			if i := strings.LastIndex(l, "("); i > 0 {
+				l = l[:i]
+			}
+			return l
+		}
+	}
+	return "unknown"
 }
 
 func firstLine(x string) string {
@@ -654,6 +676,14 @@ func (s *Sim) crash(p *Process, why string) {
 	p.pend = map[ObjKey][]pendEv{}
 	p.pendKeys = nil
 	delay := time.Duration(s.T.Next(5000)) * time.Millisecond
+	if why == "panic" {
+		// CrashLoopBackOff of the kubelet: 10s, 20s, 40s ... capped at 5 minutes
+		delay = 10 * time.Second << uint(min(p.panics, 5))
+		if delay > 300*time.Second {
+			delay = 300 * time.Second
+		}
+		p.panics++
+	}
 	s.After(delay, func() {
 		if p.down && !s.ended {
 			p.Start()
